@@ -2,6 +2,7 @@
 #pragma once
 #include <rapidcheck.h>
 #include "rt.hpp"
+extern "C" void __sanitizer_set_death_callback(void (*)(void));
 
 namespace rcm {
 
@@ -17,6 +18,7 @@ struct Engine {
     // optional bounded-exhaustive tier run before the random tier; returns false to stop (failure recorded)
     std::function<bool(const rt::Args &, rt::Stats &, rt::Failure &)> exhaustive;
     bool fork_eval = false; // evaluate each case in a forked child (engine A: only with --fork)
+    bool hang_is_failure = false; // a case that does not return is a verdict (engines whose cases take microseconds)
     std::function<void(rt::Verdict &)> post; // parent-side post-processing of a verdict (e.g. classify sanitizer reports)
 };
 
@@ -24,7 +26,17 @@ template <class Case>
 int run(int argc, char **argv, Engine<Case> &E) {
     rt::Args args = rt::parse_args(argc, argv);
     if (const char *e = getenv("VERIF_FORK")) if (*e == '1') args.fork_per_case = true;
+    rt::hang_is_failure() = E.hang_is_failure;
+    static Engine<Case> *g_engine; g_engine = &E;
+    if (E.hang_is_failure && !E.fork_eval && !args.fork_per_case && args.replay.empty()) {
+        rt::WatchState &w = rt::watch();
+        w.render = [](const void *p) { return g_engine->to_text(*(const Case *)p); };
+        w.out_base = args.out + "/shard-" + std::to_string(args.shard); w.prop = args.prop; w.installed = true;
+        signal(SIGALRM, rt::watch_handler);
+        __sanitizer_set_death_callback(rt::death_callback);
+    }
     auto evaluate = [&](const Case &c) -> rt::Verdict {
+        rt::watch_tick(&c);
         rt::Verdict v = (E.fork_eval || args.fork_per_case) ? rt::run_forked(args.prop, [&] { return E.eval(c, args); }) : E.eval(c, args);
         if (E.post) E.post(v);
         return v;
@@ -47,7 +59,8 @@ int run(int argc, char **argv, Engine<Case> &E) {
     rt::Stats stats;
     rt::Failure failure;
     bool go_on = true;
-    if (E.exhaustive) go_on = E.exhaustive(args, stats, failure);
+    // (the driver's fork-per-case retry of a shard that died in its random tier does not repeat the bounded-exhaustive tier: it passed in-process)
+    if (E.exhaustive && !(args.fork_per_case && getenv("VERIF_RETRY"))) { rt::watch().in_exhaustive = true; go_on = E.exhaustive(args, stats, failure); rt::watch().in_exhaustive = false; }
 
     if (go_on) {
         long cases = args.cases > 0 ? args.cases : E.default_cases(args);
